@@ -14,14 +14,19 @@ HistPlugin (adaptive / past(), C10): hist is a symbolic history whose components
 from fractions import Fraction as F
 
 import numpy as np
+from pyverif.tv import tv_to_np
 import z3
 
 from . import symx, decide, refsem
 from .symx import Sym, SArr
 
 
+def _is_torch(a):
+    return hasattr(a, 'detach') and hasattr(a, 'clone')
+
+
 def _conc_args(c):
-    return [np.array(a, copy=True) if isinstance(a, np.ndarray) else a for a in c.args]
+    return [np.array(a, copy=True) if isinstance(a, np.ndarray) else (a.clone() if _is_torch(a) else a) for a in c.args]
 
 
 def find_state_carrying_args(c):
@@ -29,17 +34,24 @@ def find_state_carrying_args(c):
     values, some cell holds after the call the marker of a DIFFERENT cell (a roll).  Temporaries that are merely
     overwritten, or keep unwritten cells as they were, do not qualify."""
     out = []
-    for p, a in enumerate(c.args):
-        if p < 3 or not isinstance(a, np.ndarray) or a.dtype.kind != 'f' or a.ndim < 1 or a.size < 2:
+    for p, a0 in enumerate(c.args):
+        if p < 3 or callable(a0) and not hasattr(a0, 'shape'):
+            continue
+        a = np.asarray(a0.detach().cpu().numpy() if _is_torch(a0) else a0) if hasattr(a0, 'shape') else None
+        if a is None or a.dtype.kind != 'f' or a.ndim < 1 or a.size < 2:
             continue
         args = _conc_args(c)
         marker = 1000.0 + np.arange(a.size, dtype=float).reshape(a.shape) * 7.0
-        args[p] = marker.copy()
+        if _is_torch(a0):
+            import torch
+            args[p] = torch.from_numpy(marker.copy()).to(a0.dtype)
+        else:
+            args[p] = marker.astype(a.dtype).copy()
         try:
             c.func(*args)
         except Exception:   # noqa
             continue
-        post = np.asarray(args[p], dtype=float)
+        post = np.asarray(args[p].detach().cpu().numpy() if _is_torch(args[p]) else args[p], dtype=float)
         flat_pre = marker.reshape(-1)
         flat_post = post.reshape(-1)
         moved = False
@@ -66,7 +78,7 @@ class RingBufferPlugin:
         ov = {}
         # y must be non-trivial for the detection run: use the returned initial state (fingerprints, non-zero)
         for p in find_state_carrying_args(c):
-            a = np.asarray(c.args[p])
+            a = np.asarray(tv_to_np(c.args[p]))
             sym = symx.symarray(f"B{p}", a.shape)
             ov[p] = sym
             self.buffers[p] = (sym, np.array(sym, copy=True))      # (live array mutated by the call, pre-state symbols)
@@ -144,7 +156,7 @@ class HistPlugin:
         self.H = None
 
     def arg_overrides(self, c, binding, t_sym):
-        ny = int(np.size(c.args[1]))
+        ny = int(np.asarray(tv_to_np(c.args[1])).size)
         self.H = [symx.UF(f"Hist{i}", 1) for i in range(ny)]
         H = self.H
 
